@@ -183,6 +183,10 @@ pub struct SimCfg {
     /// under test is a scheduling point (0 = never): lock and unlock fast paths
     #[serde(default)]
     pub atomic_every: u64,
+    /// every n-th atomic load or relaxed store of a simulated thread inside the instrumented code is a
+    /// scheduling point (0 = never): the reader side of lock-free protocols
+    #[serde(default)]
+    pub atomic_load_every: u64,
     /// enabled fault kinds (bit mask)
     pub faults: u32,
     /// probability that an eligible I/O op gets a fault
@@ -216,6 +220,7 @@ impl Default for SimCfg {
             pct_horizon: 2000,
             alloc_every: 0,
             atomic_every: 0,
+            atomic_load_every: 0,
             faults: 0,
             io_fault_rate: 0.0,
             clock_fault_rate: 0.0,
@@ -339,6 +344,7 @@ struct Slot {
     alloc_count: u64,
     alloc_bytes: u64,
     atomic_count: u64,
+    atomic_load_count: u64,
     clock_off: u64,
     prio: u64,
     yields_in_row: u32,
@@ -489,6 +495,7 @@ pub enum Pt {
     Block = 10,
     Exit = 11,
     Atomic = 12,
+    AtomicLoad = 13,
 }
 
 impl Sim {
@@ -788,6 +795,7 @@ pub fn start(cfg: SimCfg, dec: Decider, fatal_fd: i32) {
             alloc_count: 0,
             alloc_bytes: 0,
             atomic_count: 0,
+            atomic_load_count: 0,
             clock_off: 0,
             prio: 0,
             yields_in_row: 0,
@@ -1124,6 +1132,33 @@ pub fn hook_atomic() {
                 }
             }
             s.sched_point(g.tid, Pt::Atomic);
+        }
+    }
+}
+
+/// an atomic load or relaxed store in instrumented code (see tsan_rt.rs)
+pub fn hook_atomic_load() {
+    let tid = match TID.try_with(|c| c.get()) {
+        Ok(t) if t != usize::MAX => t,
+        _ => return,
+    };
+    if IN_SIM.with(|c| c.get()) {
+        return;
+    }
+    let p = SIM.load(Ordering::Acquire);
+    if p.is_null() {
+        return;
+    }
+    let s = unsafe { &mut *p };
+    let every = s.cfg.atomic_load_every;
+    if every == 0 || s.quiet {
+        return;
+    }
+    s.slots[tid].atomic_load_count += 1;
+    if s.slots[tid].atomic_load_count % every == 0 {
+        if let Some(g) = enter() {
+            s.stats.atomic_points += 1;
+            s.sched_point(g.tid, Pt::AtomicLoad);
         }
     }
 }
